@@ -310,8 +310,17 @@ pub fn arb_cuts(len: usize) -> BoxedStrategy<Vec<usize>> {
 /// Streams of long frames (payloads of 200-700 bytes with a few zero bytes) for the large
 /// capacities: (capacity, shape, stream)
 pub fn arb_long_frame_stream() -> BoxedStrategy<(usize, Shape, Vec<u8>)> {
-    let payload = (200usize..700, proptest::collection::vec((any::<u16>(), any::<bool>()), 0..6), any::<u8>()).prop_map(|(n, zeros, fill)| {
+    let payload = (200usize..700, proptest::collection::vec((any::<u16>(), any::<bool>()), 0..6), any::<u8>(), prop_oneof![3 => Just(0usize), 1 => 250usize..258]).prop_map(|(n, zeros, fill, gap)| {
         let mut p = vec![nz(fill); n];
+        if gap > 0 {
+            // zero bytes separated by runs of exactly `gap` non-zero bytes (around the 254-byte COBS block size)
+            let mut pos = gap;
+            while pos < n {
+                p[pos] = 0;
+                pos += gap + 1;
+            }
+            return p;
+        }
         for (pos, _) in zeros {
             let i = gen::pick_idx(pos, n);
             p[i] = 0;
